@@ -324,6 +324,12 @@ CORPUS = [
     {"shape": [5, 8], "periodic": [False, True], "cells": [[1, 0], [3, 0], [1, 7], [2, 7], [3, 7]]},
     {"shape": [5, 8], "periodic": [True, True], "cells": [[1, 0], [3, 0], [1, 7], [2, 7], [3, 7]]},
     {"shape": [4, 4], "periodic": [True, True], "cells": [[0, 0], [0, 3], [3, 0], [3, 3]]},
+    # two thin bars whose equal-area discs overlap although the bars are not adjacent; the nearest neighbour (by centre) of
+    # each bar is a single-cell component that does not overlap it: the overlap filter has to look at ALL pairs
+    {"shape": [16, 20], "periodic": [False, False],
+     "cells": [[r, c] for r in (4, 5) for c in range(1, 19)] + [[10, c] for c in range(2, 18)] + [[0, 10], [14, 10]]},
+    {"shape": [20, 16], "periodic": [False, False],
+     "cells": [[c, r] for r in (4, 5) for c in range(1, 19)] + [[c, 10] for c in range(2, 18)] + [[10, 0], [10, 14]]},
 ]
 
 
@@ -378,9 +384,19 @@ def cyl_periodic_cases(ck: Check, n: int):
         dr, dz = rng.choice([1.0, 0.5]), rng.choice([1.0, 0.75])
         z0 = rng.choice([0.0, -2.0])
         grid = CylindricalSymGrid(nr * dr, [z0, z0 + nz * dz], [nr, nz], periodic_z=True)
-        kind = rng.choice(["noise", "blob+tube", "blob+tube", "blobs"])
+        kind = rng.choice(["noise", "blob+tube", "blob+tube", "blobs", "head+tail"])
         m = np.zeros((nr, nz), dtype=bool)
-        if kind == "noise":
+        if kind == "head+tail":
+            # one asymmetric on-axis component across the periodic boundary: a thick head on one side and a thin tail that
+            # reaches more than half a period to the other side (not all the way round)
+            zc, rad = rng.randrange(nz), rng.randint(2, max(2, nr - 1))
+            m[:rad, zc] = True
+            m[:rad, (zc + 1) % nz] = True
+            for k in range(2, min(nz - 2, nz // 2 + rng.randint(1, 3)) + 1):
+                m[0, (zc + k) % nz] = True
+            if rng.random() < 0.5:
+                m = m[:, ::-1].copy()
+        elif kind == "noise":
             m = np.array([rng.random() < rng.choice([0.2, 0.4]) for _ in range(nr * nz)]).reshape(nr, nz)
         else:
             for _ in range(rng.randint(1, 2)):
